@@ -2,6 +2,7 @@ import PyaModel.Spec.CacheSpec
 import PyaModel.Generated.SetSites
 import PyaModel.Generated.CacheSites
 import PyaModel.Generated.CacheKeys
+import PyaModel.Generated.InterpreterState
 /-!
 # Proofs/C10 — helper lemmas for Props/C10.lean
 
@@ -28,6 +29,11 @@ theorem proc_state_registered_proof : procStateRegistered Gen.scannedProcState =
 /-- In every store into a memo table the key mentions every parameter the stored value is computed
 from (or the omission is a registered waiver). -/
 theorem memo_keys_cover_parameters_proof : memoKeysCover Gen.scannedMemoKeys = true := by decide
+
+/-- The reads of interpreter-global state and the import calls of the live tree are exactly the
+registered ones. -/
+theorem interpreter_state_reads_registered_proof :
+    interpreterReadsRegistered Gen.scannedInterpreterReads = true := by decide
 
 /-- Every `id(…)` key / hash / membership expression the scan finds is registered with the reason
 why the address identifies a live object. -/
